@@ -371,7 +371,7 @@ class World:
                        "alias_route_checked": 0, "reordered_restriction": 0,
                        "typemap_checked": 0, "non_utf8_encoding": 0, "fault_armed_not_fired": 0,
                        "geojson_escaped_member_name": 0, "geojson_null_geometry": 0,
-                       "read_fault_fired": 0, "failed_overwrite_of_acked_file": 0, "failing_cast_read": 0, "reused_keyword_object": 0, "geojson_edit_then_rewrite": 0}
+                       "read_fault_fired": 0, "failed_overwrite_of_acked_file": 0, "failing_cast_read": 0, "reused_keyword_object": 0, "geojson_edit_then_rewrite": 0, "edit_then_rewrite": 0}
         self.opcount = {}
         self.log = []
         self.abstract = []
@@ -382,6 +382,8 @@ class World:
         self.violations.append(Violation(prop, oracle, sig, self.step, detail))
 
     def path(self, rel):
+        if getattr(self, "relative", False):
+            return rel
         return os.path.join(self.root, rel)
 
     # -- write ----------------------------------------------------------------
@@ -465,6 +467,19 @@ class World:
         raise AssertionError(kind)
 
     def op_write(self, op):
+        if op.get("relative"):
+            # a bare relative path ("f1.csv.gz", "d1/f2.json"): cwd is the scratch root
+            cwd = os.getcwd()
+            os.chdir(self.root)
+            self.relative = True
+            try:
+                return self._op_write(op)
+            finally:
+                self.relative = False
+                os.chdir(cwd)
+        return self._op_write(op)
+
+    def _op_write(self, op):
         fmt, rel, opts, doc = op["fmt"], op["path"], op.get("opts", {}), op["doc"]
         kind, ext, sfx, binary = FORMATS[fmt]
         path = self.path(rel)
@@ -651,6 +666,48 @@ class World:
                 self.probes["torn_read_raised"] += 1
             else:
                 self.probes["torn_read_returned"] += 1
+
+    def op_rewrite(self, op):
+        """
+        One frame object: write it (or just look at it), edit one cell in place, write it to a
+        second path; the second file must hold the edited frame.
+        """
+        fmt, opts = op["fmt"], op.get("opts", {})
+        doc = copy.deepcopy(op["doc"])
+        frame = build_frame(doc)
+        ci, ri, val = op["edit"]
+        name, dtype, values = doc["cols"][ci]
+        p1 = self.path(op["path"] + ".first" + FORMATS[fmt][1])
+        p2 = self.path(op["path"] + FORMATS[fmt][1])
+        os.makedirs(os.path.dirname(p1) or ".", exist_ok=True)
+        writer = {"pickle": "write_pickle", "parquet": "write_parquet", "csv": "write_csv",
+                  "json": "write_json", "npz": "write_npz"}[fmt]
+        try:
+            getattr(frame, writer)(p1)
+            frame[name].is_na()
+            frame[name].tolist()
+            # the caller's in-place edit
+            v = val
+            if dtype == "date":
+                import numpy as np
+                v = np.datetime64(val)
+            frame[name][ri] = v
+            values[ri] = val
+            getattr(frame, writer)(p2)
+            back = self.do_read(fmt, p2, {})
+        except Exception as e:
+            self.viol("C12", "rewrite", f"C12.rewrite-raise|{fmt}|{type(e).__name__}",
+                      f"write / edit cell in place / write again raised {e!r}; doc={op['doc']!r} edit={op['edit']!r}")
+            return
+        self.acked_reads += 1
+        self.probes["edit_then_rewrite"] += 1
+        self.abstract.append(("rewrite", fmt, dtype))
+        why = frame_mismatch(back, doc, FORMATS[fmt][3])
+        self.log.append({"op": "rewrite", "fmt": fmt, "ok": why is None})
+        if why:
+            self.viol("C12", "rewrite", f"C12.roundtrip|{fmt}||data|after-in-place-edit",
+                      f"frame written, cell {name!r}[{ri}] set to {val!r} in place, written again: the "
+                      f"second file reads back differently: {why}")
 
     def op_restart(self, op):
         """
@@ -867,7 +924,11 @@ class World:
                     data = full.select(*keep)
             for n, t in (lit.get("dtypes") or {}).items():
                 t = {"float": float, "object": object, "str": str, "int": int}[t]
-                data[n] = data[n].astype(di.Vector._map_input_dtype(t))
+                if data[n].is_na().any() and t in (object, str):
+                    # missing values stay missing in the target type
+                    data[n] = di.DataFrameColumn(data[n].tolist(), t)
+                else:
+                    data[n] = data[n].astype(di.Vector._map_input_dtype(t))
             return data
         keys = lit.get("keys") or []
         data = full.deepcopy()
@@ -1175,7 +1236,7 @@ class Gen:
                 "fmts": self.fmts, "suffixes": self.suffixes, "nrows_max": self.nrows_max}
 
     def strings(self, enc):
-        return STR_LATIN1 if enc == "latin-1" else STR_ALPHA
+        return STR_LATIN1 if enc in ("latin-1", "latin1") else STR_ALPHA
 
     def column(self, dtype, n, enc="utf-8", na=True):
         r = self.rng
@@ -1223,7 +1284,7 @@ class Gen:
         used = {"id"}
         for _ in range(k):
             name = r.choice([x for x in names if x not in used] or ["z"])
-            if enc == "latin-1" and name == "ünï":
+            if enc in ("latin-1", "latin1") and name == "ünï":
                 name = "u2"
             if name in used:
                 continue
@@ -1321,10 +1382,10 @@ class Gen:
             if r.random() < 0.3:
                 o["header"] = r.random() < 0.5
             if r.random() < 0.35:
-                o["encoding"] = r.choice(["utf-8", "utf-16", "latin-1"])
+                o["encoding"] = r.choice(["utf-8", "utf-16", "latin-1", "utf16", "UTF_16", "latin1", "UTF8"])
         elif fmt in ("json", "lod_json"):
             if r.random() < 0.3:
-                o["encoding"] = r.choice(["utf-16", "latin-1"])
+                o["encoding"] = r.choice(["utf-16", "latin-1", "utf16", "UTF_16", "latin1"])
             if r.random() < 0.3:
                 o["indent"] = r.choice([None, 0, 4])
         elif fmt == "npz":
@@ -1375,6 +1436,8 @@ class Gen:
         old = self.existing([fmt], states=("acked", "torn", "undefined"))
         path = old if (old and r.random() < 0.35) else self.new_path(fmt)
         op = {"op": "write", "fmt": fmt, "path": path, "opts": opts, "doc": doc}
+        if r.random() < 0.12:
+            op["relative"] = True
         f = self.fault()
         if f:
             op["fault"] = f
@@ -1412,6 +1475,24 @@ class Gen:
             if f:
                 op["fault"] = f
         return op
+
+    def g_rewrite(self):
+        r = self.rng
+        fmt = r.choice([f for f in self.fmts if f in ("pickle", "parquet", "csv", "json", "npz")] or ["json"])
+        doc = self.frame_doc(fmt)
+        cand = [(i, c) for i, c in enumerate(doc["cols"]) if c[1] in ("int", "float", "str", "object", "bool", "date")
+                and i > 0]
+        if not cand:
+            return self.g_write()
+        ci, (name, dtype, values) = r.choice(cand)
+        ri = r.randrange(len(values))
+        val = {"int": 77, "float": 0.125, "str": "edited", "object": "edited", "bool": not values[ri],
+               "date": "2001-02-03"}[dtype]
+        if fmt in ("csv", "json") and dtype == "object":
+            return self.g_write()
+        self.counter += 1
+        return {"op": "rewrite", "fmt": fmt, "doc": doc, "edit": [ci, ri, val], "path": "rw%d" % self.counter,
+                "opts": {}}
 
     def g_restart(self):
         p = self.existing()
@@ -1461,6 +1542,14 @@ class Gen:
                 k = r.randint(1, min(4, len(names)))
                 sub = r.sample(names, k)
                 lit["columns"] = sub
+            fna = [c[0] for c in doc["cols"] if c[1] == "float" and any(v is None for v in c[2])]
+            if fmt in ("csv", "parquet") and fna and r.random() < 0.3 and \
+                    not (fmt == "csv" and info["opts"].get("header") is False):
+                name = r.choice(fna)
+                lit["dtypes"] = {name: r.choice(["object", "str"])}
+                if lit.get("columns") and name not in lit["columns"]:
+                    lit["columns"].append(name)
+                return lit
             strs = [c[0] for c in doc["cols"] if c[1] == "str" and any(v for v in c[2])]
             if fmt in ("csv", "parquet") and strs and r.random() < 0.12 and \
                     not (fmt == "csv" and info["opts"].get("header") is False):
@@ -1549,7 +1638,7 @@ class Gen:
             table = [("write", 4), ("routes", 3), ("restrict", 4), ("truncate", 1), ("read", 1), ("rmtree", 0.2)]
         else:
             table = [("write", 5), ("read", 3), ("truncate", 0.7), ("routes", 0.5), ("restrict", 0.5),
-                     ("restart", 0.01 if self.tier != "thorough" else 0.08), ("rmtree", 0.3)]
+                     ("restart", 0.01 if self.tier != "thorough" else 0.08), ("rmtree", 0.3), ("rewrite", 0.6)]
         if not self.w.files:
             return self.g_geo() if self.prop == "C18" else self.g_write()
         name = r.choices([n for n, w in table], [w for n, w in table])[0]
